@@ -29,6 +29,24 @@ CHECKS = {
  'C19': ('bounded-exhaustive enumeration of all small rooted digraphs/multigraphs on the real IDom/Dom/DomFrontier against dominance decided by node deletion and reachability',
          'All digraphs on <=4 (5) nodes x every root, all multigraphs on <=3 nodes with lists <=3, and complete structured families up to 200 nodes (irreducible ladders, complete graphs, circulant multigraphs, unreachable feeders into reachable joins). Panics are violations; non-termination is caught by a 90 s watchdog.',
          'root membership in frontiers compared only when the root has 0 or >=2 incoming edges; frontiers of unreachable nodes unconstrained; non-termination observed, not proved', '4/C19'),
+ 'C04': ('bounded-exhaustive multiset-pair enumeration of the real t-tests and MeanCI against exact rational statistics and closed-form/series/gonum Student-t references',
+         'Every pair of multisets of sizes {2,3,4}^2 (thorough to 5) over a 6-value alphabet for the pooled and Welch tests, every pair of equal-length sequences (length<=3, thorough 4) for the paired test, every multiset n<=5 x 4 mu0 for the one-sample test, all alternatives, swap/shift/scale laws, every small error combination, a structured family to n=40 with offsets to 1e6, MeanCI on 11 confidence levels.',
+         'T tolerance is an explicit forward-error bound scaled by the condition number of the data; P 1e-9 plus the propagated T tolerance', '4/C04'),
+ 'C05': ('bounded-exhaustive lattice enumeration of NormalDist/TDist/DeltaDist against erfc series in big.Float, the closed-form/Maclaurin-series t CDF and gonum; per-cell Gauss-Legendre integrals',
+         '25 (thorough 81) normal parameter sets x 641 arguments over +-40 sigma x 277 p down to 1e-300; 13 (23) t distributions x ~750 arguments including 10^(-j/4) down to 1e-12 and +-1e8; accuracy, range, monotonicity, symmetry, limits, PDF integral per cell, InvCDF round trip, moments, Bounds, Rand against a twin source; DeltaDist step/quantile.',
+         'between lattice points only monotonicity at lattice resolution is decided; round trip asserted where the quantile is representable (see DESIGN 3a)', '4/C05'),
+ 'C09': ('bounded-exhaustive sequence x weight-vector enumeration + explicit-state BFS over Sample histories (Sort/Copy/mark/reverse/rotate) with exact big.Rat oracle',
+         'Every sequence of length<=5 (6) over 5 values x 4 offsets, every weight vector over {0,1,2,3} for length<=4 (5), GeoMean on powers of two plus the NaN rule, structured n to 200, all Sample histories to depth 4 (5) from every initial sample of length<=3, vec helpers on a small complete lattice.',
+         'weighted Variance/StdDev/MeanCI are documented panics (not called); weighted GeoMean compared on positive data only', '4/C09'),
+ 'C10': ('bounded-exhaustive sequence x q-lattice enumeration of Sample.Quantile against an exact rational Hyndman-Fan type 8 model',
+         'Every sequence of length 1..6 (7) over {-1,0,2,7}, structured n in {7..12,50,199,200}, q on -0.5..1.5 step 1/48 plus every break point +-1 ulp, both Sorted settings, bitwise order independence, unmodified inputs incl. spare capacity, weighted quantile with q on every cumulative weight +-1 ulp.',
+         'tolerance 4 eps (n+1)(range+max|x|); weighted ties grouped', '4/C10'),
+ 'C11': ('bounded-exhaustive (n,q,c) enumeration of QuantileCI against exact big.Rat binomial masses (n<=30) and a 200-bit normal construction with an independent normal quantile (n>30)',
+         'n=1..30 and 7 (13) larger n x 43 (83) q x ~200+3(n+1) confidence levels including every cumulative mass of the greedy accumulation +-1 ulp; structure, exact Confidence, >=c, mode, minimality, nesting, Ambiguous law; SampleCI on every permutation of samples of size<=5.',
+         'c<=0 outside the domain (statement self-inconsistent there); half-integer ambiguity zone 1e-7 for n>30', '4/C11'),
+ 'C14': ('bounded-exhaustive edge-alphabet enumeration + explicit-state BFS over Add histories (state = counter vector) with HistogramQuantile evaluated for every rank in every state',
+         'LinearHist nbins 1..5 (50) x 5 ranges and 108 LogHist shapes: single Add of every edge +-2 ulp, mid-points, 16 positions in the strip below the first edge, far values; all Add histories to depth 5 (6) over a 7-value alphabet; 500-Add structured streams; BinToValue monotone and interpolating.',
+         'rank convention (0- or 1-based) left open by the statement: either accepted consistently per state; 4-ulp edge ambiguity (statement)', '4/C14'),
 # --- end of table ---
 }
 NOT_BUILT = 'check not built yet (work in progress; no claim made)'
